@@ -492,7 +492,7 @@ def run_C09(ctx):
             if h is None:
                 continue
             if outs(h) != ro or ([l for l in h if l.startswith("state ")][-1:] != fin and c.family != "buf"):
-                ctx.violation("predicate", f"{c.mode} bs={c.bs}: exporting the state after {c.ops[0].split()[0]} of {len(payload(c.ops[0]))} bytes and importing it into a fresh instance does not continue the stream",
+                ctx.violation("predicate", f"{c.mode} bs={c.bs}: exporting the state after {c.ops[0].split()[0]} of {len(c.ops[0].split()[-1]) // 2} bytes and importing it into a fresh instance does not continue the stream",
                               [g[0], c], {"H_whole": hr, "H_cut": h})
                 break
     # (b) exported value = public chaining value: state lines against the definition
@@ -924,6 +924,9 @@ def run_C15(ctx):
             ctx.violation("predicate", f"{c.mode} bs={c.bs}: output blocks depend on input that comes after them", [c], {"H": h})
             continue
         A, B = blocks_of(P, mbs), blocks_of(P2, mbs)
+        if len(A) != n or len(B) != n or any(not l.startswith("out ") for l in (h[2], h[4], h[6])):
+            ctx.violation("predicate", f"{c.mode} bs={c.bs} w={c.w} n={n}: a decryption call did not return {n} blocks of output: {[l[:12] for l in (h[2], h[4], h[6])]}", [c], {"H": h})
+            continue
         diff = [xor(x, y) for x, y in zip(A, B)]
         zero = bytes(mbs)
         fam = c.mode[:-4]
